@@ -165,9 +165,46 @@ PROTO_RULES = [(r"array.*map|drain_array_with|try_from_fn|from_fn", 33), (r"boxc
 # an Arc<Mutex<..>> - became a non-constant byte-extract and every clone / drop loop was unrolled
 # to the bound with heap strings of symbolic length (tick: > 15 min). With 512 the same tick
 # takes seconds. Soundness is not affected (it only changes how symex represents arrays).
+# scored family: one matcher column (the comparator's sum over columns), at most 3 entries in the match list
+# (small geometry: insertion sort up to 3 entries); unwinding assertions stay on
+SCORED_RULES = PROTO_RULES + [(r"Iter<'_, nucleo_matcher::Utf32String>.*fold", 2), (r"par_sort::(insertion_sort|shift_tail|shift_head|partial_insertion_sort)", 4)]
 PROTO_CBMC = ["--max-field-sensitivity-array-size", "512"]
 
-FAMILIES = {"nucleo_sort": sort_instances, "nucleo_boxcar": boxcar_instances, "nucleo_proto": proto_instances, "nucleo_multi": multi_instances}
+def scored_instances(tier):
+    """Non-empty patterns on the real worker; MultiPattern::score replaced by the table of its real values.
+    script digits (first op first): 1..4 reparse to "a" / "ab" / "b" / "!a", 5 append to "ab", 6 push, 7 settle+oracle"""
+    out = []
+    q = tier == "quick"
+    OPS = {1: 'reparse "a"', 2: 'reparse "ab"', 3: 'reparse "b"', 4: 'reparse "!a" (negative atom: matches score 0)', 5: 'append -> "ab"', 6: "push", 7: "settle + oracle",
+           8: "tick, run left pending", 9: "reparse to the empty pattern", 10: "restart(false)", 11: "restart(true)"}
+    def add(items, reserved, lens, ops, dbg=8):
+        code = 0
+        for o in reversed(ops):
+            code = code * 16 + o
+        name = "scored_i%d_r%d_l%d_%s%s" % (items, reserved, lens, "".join("%x" % o for o in ops), "_entries" if dbg == 0 else "")
+        i = Inst(name, 8, "scored::<%d, %d>(%d, %d, %d)" % (items, reserved, lens, code, dbg), ["C06", "C07", "C19"],
+                 {"items_before": items, "reserved_unpublished_indices": reserved, "two_char_texts(bitmask)": lens, "script": [OPS[o] for o in ops],
+                  "item_texts": "symbolic over {a,b}", "worker_threads": 1, "score": "table of the real MultiPattern::score", "oracle": "item count, match count = number of matching published items, status flags (entries of the match list are not read back: see scored_h.rs)"}, "nucleo_scored")
+        i.small = True
+        i.unwind_rules = SCORED_RULES
+        i.cbmc_extra = PROTO_CBMC
+        out.append(i)
+    # calibration: one pattern edit + settle takes 25 - 40 s; every further settle multiplies the formula (two
+    # settles with a reserved slot or three settles: > 12 min, 6 GB) - those stay out of both tiers
+    if q:
+        add(2, 0, 0b01, [1, 7])
+        add(3, 0, 0b001, [4, 7])
+        add(2, 0, 0b10, [3, 7])
+        add(2, 0, 0b01, [1, 8, 9, 7])        # a run cancelled by an edit to the empty pattern
+        add(1, 0, 0b1, [1, 7, 10, 6, 7])     # restart with an unchanged non-empty pattern
+    else:
+        for items, reserved, lens in ((1, 0, 0), (2, 0, 1), (2, 0, 2), (3, 0, 1), (3, 0, 6), (1, 1, 2), (2, 1, 2)):
+            for ops in ([1, 7], [4, 7], [2, 7], [3, 7], [1, 3, 7], [1, 5, 7], [6, 1, 7], [1, 8, 9, 7], [1, 8, 3, 7], [1, 7, 10, 6, 7], [1, 7, 11, 6, 7], [4, 7, 1, 5, 7]):
+                add(items, reserved, lens, ops)
+    return out
+
+
+FAMILIES = {"nucleo_scored": scored_instances, "nucleo_sort": sort_instances, "nucleo_boxcar": boxcar_instances, "nucleo_proto": proto_instances, "nucleo_multi": multi_instances}
 
 
 def all_instances(tier):
@@ -190,6 +227,22 @@ def write_gen(sc, tier, extra=(), small=None):
     for fam in FAMILIES:
         if fam == "nucleo_multi":
             continue  # static harness list
+        if fam == "nucleo_scored":
+            sc.write_gen(fam + ".rs", gen_text(fams.get(fam, []), "harnesses_scored"))
+            continue
         # the protocol family runs the real worker, whose vectors legitimately grow: no Vec::push stub
         sc.write_gen(fam + ".rs", gen_text(fams.get(fam, []), "harnesses_nostub" if fam == "nucleo_proto" else "harnesses"))
+    # score table of scored_h.rs: the real function's values, computed natively when a scored instance is run
+    import engine
+    tab = None
+    if getattr(sc, "need_score_table", False):
+        tab = getattr(sc, "score_table_cache", None) or engine.score_table(sc)
+        if tab is None:
+            raise engine.BuildError("the native score table run failed")
+        sc.score_table_cache = tab
+    rows = []
+    for pid in range(5):
+        rows.append("[" + ", ".join(str(tab[(pid, tid)] if tab else -1) for tid in range(6)) + "]")
+    sc.write_gen("score_table.rs", "// generated at check time: MultiPattern::score of the current tree, -1 = no match\n"
+                 "pub const SCORE_TABLE_VALID: bool = %s;\npub static SCORE_TABLE: [[i64; 6]; 5] = [%s];\n" % ("true" if tab else "false", ", ".join(rows)))
     return None
